@@ -558,7 +558,10 @@ def _chk_rect_initial(c):
     for N in (20, 40, 80):
         p['Nsum'] = N
         errs.append(abs(T2(RECT, p, [(c['x'], c['y'])], t)[0]))
-    if errs[2] > 1e-6 * p['Ttop'] and not (errs[2] < 0.05 * errs[1] < 0.05 * errs[0]):
+    # calibrated on the unchanged tree (1500 cases): above the 1e-6 floor the N = 80 truncation error is at most 4.7e-5 Ttop
+    # (b >> a: the modes in y are not yet damped at this t) and falls by a factor >= 9 from N = 40 to 80, but NOT always by the
+    # factor 20 demanded before (0.11 observed: a false alarm that depended on how many cases the time budget allowed)
+    if errs[2] > 1e-3 * p['Ttop'] or (errs[2] > 1e-6 * p['Ttop'] and not errs[2] < 0.5 * errs[1]):
         return dict(site='Rectangle:initial', detail='x=%r y=%r t=%r |T| = %r %r %r at Nsum = 20, 40, 80' % (c['x'], c['y'], t, *errs))
     return None
 
